@@ -220,3 +220,43 @@ def run(ctx):
     r2_dispatch(ctx)
     r3_r4_r5_go(ctx)
     r6_move_text(ctx)
+
+
+def r7_numeric_tokens(ctx):
+    """a numeric go parameter is accepted only through the integer parser"""
+    rid = "C15.R7"
+    ctx.rule(rid, "every value-returning path of the numeric token parsers (parse_u64, parse_duration) obtains its value from str::parse of the token; no path accepts a token without parsing it", floor=2)
+    from ..paths import returning_paths, NotLoopFree
+    prog = ctx.prog
+    for name in ("parse_u64", "parse_duration"):
+        f = ctx.fn(rid, P + name)
+        try:
+            pes = returning_paths(f)
+        except NotLoopFree:
+            ctx.lost(rid, "%s has a loop" % name)
+            continue
+        bad = []
+        n_ok = 0
+        for pe in pes:
+            r = pe.ret()
+            # error exits: `?` residuals and explicit Err(..)
+            if r[0] == "call" and r[1].endswith("::from_residual"):
+                continue
+            if r[0] == "agg" and r[2].endswith("Result::Err"):
+                continue
+            calls = [x[1] for x in leaves(r) if x[0] == "call"]
+            if any(c.endswith("core::str::<str>::parse") for c in calls):
+                n_ok += 1
+            else:
+                bad.append(show(r)[:120])
+        ctx.ob(rid, "%s|value-comes-from-parse" % name, not bad and n_ok >= 1,
+               "" if not bad and n_ok >= 1 else "%s can return %s without parsing the token as an integer: an ill-typed value is accepted instead of yielding InvalidInt" % (name, bad[:2] or "no parsed value at all"),
+               ctx.where(f), sample={"function": name, "paths": len(pes), "value_paths_through_parse": n_ok})
+
+
+_run_before_r7 = run
+
+
+def run(ctx):
+    _run_before_r7(ctx)
+    r7_numeric_tokens(ctx)
